@@ -78,11 +78,22 @@ def ref_value(tn, squared=False, output=None):
         return None
 
 
-def converged(info):
+def converged(info, tol=5e-6):
+    """the run's own report; a run that stopped on the rolling-difference
+    criterion while its messages still move (max_mdiff large: an oscillation) did
+    not converge in the sense of the property and is inconclusive"""
     if not isinstance(info, dict):
         return None
     c = info.get("converged")
-    return bool(c) if c is not None else None
+    if c is None:
+        return None
+    md = info.get("max_mdiff")
+    try:
+        if md is not None and float(md) > max(100 * tol, 1e-4):
+            return False
+    except Exception:
+        pass
+    return bool(c)
 
 
 def install(rec):
@@ -103,7 +114,7 @@ def install(rec):
 
         def post(s, out, tn, *a, **k):
             info = k.get("info")
-            conv = converged(info)
+            conv = converged(info, k.get("tol", 5e-6))
             sig = (name, s["tree"], k.get("update", "default"), bool(k.get("damping")), bool(k.get("diis")),
                    k.get("local_convergence", True), bool(k.get("strip_exponent")))
             if not s["tree"]:
@@ -316,7 +327,7 @@ def wl_contract(rng, rec, tier):
         kw2.pop("update", None)
     r2 = gen.attempt(fn, tn, **kw2)
     if r1 is not None and r2 is not None and not kw.get("strip_exponent") \
-            and converged(info1) and converged(kw2["info"]):
+            and converged(info1, kw.get("tol", 5e-6)) and converged(kw2["info"], kw2.get("tol", 5e-6)):
         try:
             a, b = complex(np.asarray(to_numpy(r1))), complex(np.asarray(to_numpy(r2)))
             tolm = max(kw.get("tol", 5e-6), kw2.get("tol", 5e-6))
